@@ -169,6 +169,9 @@ def check_config(cfg, w, rep):
     sub = Report("C05")
     for p_ in sorted(find_fns(w)):
         c05.check_find(cfg, w, sub, prog.fns[p_])
+    from . import c06
+    for p_ in w.roles.bucket_readers:
+        c06.check_reader(cfg, w, sub, prog.fns[p_])
     for (c_, rule, k, desc, ok) in sub.obligations:
         if ok:
             rep.ob(cfg, "h/" + rule, k, desc)
